@@ -24,18 +24,18 @@ MCDivisors == [jj \in 0..6 |->
 \* significances +-0.25, +-0.5, +-1, +-2, +-5 in quarter units
 MCSigs == Signed({1, 2, 4, 8, 20})
 
-\* quick: ~3e4 states
-MCSmallMax == 24
-MCGridStride == 199999
+\* quick: ~2e4 states
+MCSmallMax == 16
+MCGridStride == 333331
 MCGridOffsets == {0, 7919}
-MCRun  == [x \in MCPhases |-> IF x = "R" THEN 6 ELSE 2]
-MCJump == [x \in MCPhases |-> IF x = "R" THEN 4999 ELSE 99991]
+MCRun  == [x \in MCPhases |-> IF x = "R" THEN 5 ELSE 2]
+MCJump == [x \in MCPhases |-> IF x = "R" THEN 9973 ELSE 99991]
 
-\* thorough: ~6e5 states, denser everywhere (the harness partitions this
+\* thorough: ~4e5 states, denser everywhere (the harness partitions this
 \* configuration by phase and scale and adds seed-dependent grid offsets)
-BigSmallMax == 400
-BigGridStride == 4999
-BigGridOffsets == {0, 1237}
+BigSmallMax == 300
+BigGridStride == 9973
+BigGridOffsets == {0, 1237, 4001, 7577}
 BigRun  == [x \in MCPhases |-> IF x = "R" THEN 8 ELSE 3]
-BigJump == [x \in MCPhases |-> IF x = "R" THEN 997 ELSE 19997]
+BigJump == [x \in MCPhases |-> IF x = "R" THEN 1999 ELSE 49999]
 ====
